@@ -23,6 +23,8 @@ META = {
   "names_len*_realkey: REAL name handling (name + suffix) and REAL p_ipc_get_platform_key over the kernel model in string-name mode, concrete names of 1..100 characters "
   "(pairs differing only in the last / only in the first character, and an equal copy); run with --max-field-sensitivity-array-size 256 so that heap strings > 64 bytes stay constant",
   "reentrant_sem_new_at*: two threads open different names; the second thread's whole p_semaphore_new runs at the k-th allocator entry of the first (one query per k, real SHA-1)",
+  "new_preempted_by_{free,create}_at<k>: process Q's whole owner free / new(CREATE) runs before the k-th system call of process P's p_semaphore_new (k = 1..3 inside, 4 = afterwards); "
+  "P may fail cleanly in the window; a handle it gets must sit on a counter whose value fits a serial order (a counter P created holds exactly n)",
   "initval_*: init_val is a fully symbolic pint; negative values are the documented invalid argument (NULL); histories draw init from 0..VMAX",
   "hist*_eintr2: sem_wait fails with EINTR (no effect) at a symbolic subset (<=2) of its invocations inside every acquire of the history",
   "*_sysv: the same harnesses against src/psemaphore-sysv.c (+ the key-file helpers of pipc.c) over the System V flavour of models/kernel_ipc.c: semget/semctl(SETVAL, IPC_RMID)/semop "
@@ -34,8 +36,7 @@ META = {
   "allocator never fails (C18), EINTR only in hist*_eintr* (rest: C19), printf empty"],
  "outside": ["kernel semantics themselves (model trusted; SEM_VALUE_MAX = INT_MAX as on this platform)", "psemaphore-sysv.c beyond the *_sysv queries (nested acquire/release of the other process: 4.3 M steps, out of memory; ftok depending on the inode of a re-created key file; semid reuse); pshm-sysv.c (its segment lifetime - removal when the last process detaches - needs its own reference model)", "more than 2 processes / 3 handles / 2 names", "names other than the concrete ones used (key collisions of SHA-1 prefixes are possible in principle)",
              "histories longer than the stated number of calls", "counter values above VMAX+2",
-             "concurrent p_semaphore_new / p_semaphore_free interleavings (the property quantifies interleavings of acquirers/releasers; creation races of the "
-             "lock semaphore are covered under C07 race_*)",
+             "p_semaphore_new overlapped by calls other than one whole owner free / new(CREATE) of one other process (depth 1)",
              "stale handles (opened before a CREATE-mode re-creation or an owner free of the name): only their non-interference with the current counter is checked"],
 }
 MANIFEST = {
@@ -88,6 +89,12 @@ def names(n, kind=0):
              flags=["--max-field-sensitivity-array-size", "256"],
              funcs=["p_semaphore_new", "p_shm_new", "p_shm_buffer_new", "p_ipc_get_platform_key"][kind:kind + 1] + ["p_ipc_get_platform_key"],
              bounds={"name_length": n, "names": "A, A with another last character, A with another first character, an equal copy of A (concrete)"})
+def race(qop, at):
+    return Q("new_preempted_by_%s_at%d" % (["free", "create"][qop], at), "harness/C06_race.c", units=SEM_UNITS, models=KM,
+             hdefs=["QOP=%d" % qop, "PREEMPT_AT=%d" % at, "VK_NSEM=4", "VK_NSEMH=6"], includes=REDIR,
+             unwindset=dict(UW, **{"probe.0": 5, "probe.1": 5}), timeout=600, funcs=FUNCS,
+             bounds={"preemption_depth": 1, "preempted_before_syscall": at, "other_call": ["owner p_semaphore_free", "p_semaphore_new(CREATE, v)"][qop],
+                     "values": "0..3", "mode": "OPEN | CREATE symbolic"})
 # ---- System V configuration: the same harnesses against src/psemaphore-sysv.c over the System V flavour of the kernel model ----
 SYSV_UNITS = ["src/psemaphore-sysv.c", "src/pipc.c", "src/psysclose-unix.c", "src/perror.c", "src/pstring.c", "src/pmem.c"]
 SYSV_UW = {"p_semaphore_acquire.0": 2, "p_semaphore_acquire.1": 2, "p_semaphore_release.0": 2}
@@ -111,7 +118,7 @@ def reentrant():
     return [C07.reentrant(0, k) for k in range(1, 11)]
 def queries(tier):
     if tier == "quick":
-        return [realkey()] + [names(n) for n in NAME_LENS] + reentrant() + [initval(False), initval(True), crash(3), hist(5, 3), hist(4, 3, preempt=True), hist(3, 2, eintr=2), hist(3, 2, kfdemo=True), sysv(hist(6, 2, prologue=True)), sysv(initval(False)), sysv(initval(True)), sysv(crash(3))]
-    return [realkey()] + [names(n) for n in NAME_LENS] + reentrant() + [initval(False), initval(True), crash(4), hist(6, 3, vmax=3, timeout=3000), hist(5, 3, preempt=True, timeout=3000), hist(4, 3, eintr=2), hist(6, 2, prologue=True), hist(3, 2, kfdemo=True),
+        return [realkey()] + [names(n) for n in NAME_LENS] + reentrant() + [race(qo, k) for qo in (0, 1) for k in (1, 2, 3, 4)] + [initval(False), initval(True), crash(3), hist(5, 3), hist(4, 3, preempt=True), hist(3, 2, eintr=2), hist(3, 2, kfdemo=True), sysv(hist(6, 2, prologue=True)), sysv(initval(False)), sysv(initval(True)), sysv(crash(3))]
+    return [realkey()] + [names(n) for n in NAME_LENS] + reentrant() + [race(qo, k) for qo in (0, 1) for k in (1, 2, 3, 4)] + [initval(False), initval(True), crash(4), hist(6, 3, vmax=3, timeout=3000), hist(5, 3, preempt=True, timeout=3000), hist(4, 3, eintr=2), hist(6, 2, prologue=True), hist(3, 2, kfdemo=True),
             sysv(hist(4, 3)), sysv(hist(6, 2, prologue=True)), sysv(hist(7, 2, prologue=True, timeout=3000)), 
             sysv(hist(4, 2, eintr=2), {"p_semaphore_acquire.0": 4, "p_semaphore_acquire.1": 4}), sysv(initval(False)), sysv(initval(True)), sysv(crash(4))]
